@@ -417,10 +417,15 @@ func trimTrace(s string) string {
 	lines := strings.Split(s, "\n")
 	var keep []string
 	for _, l := range lines {
-		if strings.Contains(l, "irismod/service") || strings.Contains(l, "/repo/") {
-			keep = append(keep, strings.TrimSpace(l))
+		l = strings.TrimSpace(l)
+		// keep only source positions inside the module under test
+		if (strings.HasPrefix(l, "/repo/") || strings.Contains(l, "irismod/service@")) && strings.Contains(l, ".go:") {
+			if i := strings.Index(l, " +0x"); i >= 0 {
+				l = l[:i]
+			}
+			keep = append(keep, l)
 		}
-		if len(keep) >= 12 {
+		if len(keep) >= 6 {
 			break
 		}
 	}
